@@ -1107,10 +1107,10 @@ Proof.
 Qed.
 
 (* udp_req: one UDP_DATA frame = exactly one sendto on the association's socket *)
-Lemma udp_req_data_spec ch s io hid u ip port payload :
+Lemma udp_req_data_spec fx ch s io hid u ip port payload :
   alookup N.eqb ch (s_udph s) = Some hid -> alookup N.eqb hid (s_h s) = Some (HUdp u) ->
   no_comma ip -> port <= 65535 ->
-  udp_req ch FUdpData (dgram_hdr (ip, port) payload) s io =
+  udp_req fx ch FUdpData (dgram_hdr (ip, port) payload) s io =
     Ok (s, snd (pop io),
         [SSendto (u_sock u) (ip, port) payload (match fst (pop io) with IoErr _ => false | _ => true end)]).
 Proof.
@@ -1204,11 +1204,11 @@ Proof.
   rewrite N.eqb_refl in H. discriminate.
 Qed.
 
-Lemma udp_close_spec ch data s io hid u :
+Lemma udp_close_spec fx ch data s io hid u :
   alookup N.eqb ch (s_udph s) = Some hid -> alookup N.eqb hid (s_h s) = Some (HUdp u) ->
-  exists s', udp_req ch FUdpClose data s io = Ok (s', io, []) /\
+  exists s', udp_req fx ch FUdpClose data s io = Ok (s', io, []) /\
     alookup N.eqb hid (s_h s') = Some (HUdp (set_uok u false)) /\ mem ch (s_chan s') = false /\
-    s_udph s' = s_udph s.
+    s_udph s' = if fx80 fx then adel N.eqb ch (s_udph s) else s_udph s.
 Proof.
   intros H1 H2. unfold udp_req. rewrite H1, H2. eexists. split; [reflexivity|].
   cbn [s_h s_chan s_udph set_handler]. split; [apply (alookup_aset_same N.eqb Neqb_eq)|].
